@@ -39,6 +39,8 @@ def cases(tier, seed):
             nZ = rng.choice([2, 7, bs[2] - 1, bs[2], bs[2] + 1]) if bs[2] <= 1024 else rng.choice([2, 50, 301])
             if bs[2] <= 512 and rep % 2 == 0:
                 nZ = rng.choice([2 * bs[2] + 1, 3 * bs[2] - 2])         # several blocks along the sample axis
+                if bs[1] <= 16:
+                    nT = max(nT, 2 * bs[1] + 1)                         # ... and several trace groups, each of several blocks
             d = files.wspec_desc(rng, (max(2, nT), nZ), rate, bs, version=[0, 2, 9])
             out.append({'id': 'w2:%s:%s:%d' % (rate, 'x'.join(map(str, bs)), rep), 'file': d, 'nops': 60, 'cost': 1})
         # irregular (zero holes, tracecount < grid)
